@@ -11,6 +11,7 @@ import Mathlib.Tactic.FieldSimp
 import Mathlib.Algebra.Order.Field.Rat
 import Mathlib.Algebra.BigOperators.Group.List.Basic
 import Mathlib.Algebra.Ring.MinimalAxioms
+import Mathlib.Data.List.Nodup
 import PulserModel.Measure
 namespace Pulser.Measure
 
@@ -1061,5 +1062,233 @@ theorem expectDM_smul (z : CQ) (A rho : Mat) :
   rw [sumTo_mul_left]
   apply sumTo_congr; intro j _
   ring
+
+/-! ### 9. basis-state enumeration, number operators, occupation -/
+
+theorem allStates_length (d : Nat) : ∀ (n : Nat) (σ : List Nat), σ ∈ allStates d n → σ.length = n := by
+  intro n
+  induction n with
+  | zero => intro σ h; simp [allStates] at h; subst h; rfl
+  | succ n ih =>
+    intro σ h
+    simp only [allStates, List.mem_flatMap, List.mem_map] at h
+    obtain ⟨a, _, τ, hτ, rfl⟩ := h
+    simp [ih τ hτ]
+
+theorem allStates_digits (d : Nat) : ∀ (n : Nat) (σ : List Nat), σ ∈ allStates d n → Digits d σ := by
+  intro n
+  induction n with
+  | zero => intro σ h; simp [allStates] at h; subst h; intro a ha; simp at ha
+  | succ n ih =>
+    intro σ h
+    simp only [allStates, List.mem_flatMap, List.mem_map, List.mem_range] at h
+    obtain ⟨a, ha, τ, hτ, rfl⟩ := h
+    intro b hb
+    rcases List.mem_cons.mp hb with rfl | hb
+    · exact ha
+    · exact ih τ hτ b hb
+
+theorem range_flatMap_block (d m : Nat) :
+    (List.range d).flatMap (fun a => (List.range m).map (a * m + ·)) = List.range (d * m) := by
+  induction d with
+  | zero => simp
+  | succ d ih =>
+    rw [List.range_succ, List.flatMap_append, ih]
+    simp only [List.flatMap_cons, List.flatMap_nil, List.append_nil]
+    rw [Nat.succ_mul, List.range_add]
+
+/-- the basis states are listed in state-vector order: the k-th one has index k -/
+theorem allStates_index (d n : Nat) : (allStates d n).map (index d) = List.range (d ^ n) := by
+  induction n with
+  | zero => simp [allStates, index]
+  | succ n ih =>
+    simp only [allStates, List.map_flatMap, List.map_map]
+    have : ∀ a, List.map (index d ∘ fun x => a :: x) (allStates d n)
+        = (List.range (d ^ n)).map (a * d ^ n + ·) := by
+      intro a
+      rw [← ih, List.map_map]
+      apply List.map_congr_left
+      intro σ hσ
+      simp [index, allStates_length d n σ hσ]
+    simp only [this]
+    rw [range_flatMap_block, Nat.pow_succ, Nat.mul_comm]
+
+theorem sumTo_eq_list (n : Nat) (g : Nat → CQ) : sumTo n g = ((List.range n).map g).sum := by
+  induction n with
+  | zero => simp [sumTo]
+  | succ n ih => simp [sumTo, ih, List.range_succ]
+
+/-- a sum over positions of a state vector is a sum over basis states -/
+theorem sumTo_states (d n : Nat) (g : Nat → CQ) :
+    sumTo (d ^ n) g = ((allStates d n).map fun σ => g (index d σ)).sum := by
+  rw [sumTo_eq_list, ← allStates_index, List.map_map]
+  rfl
+
+
+/-- the projector `|one⟩⟨one|` as `build_qudit_op` makes it -/
+theorem numberQudit_entry (d one a b : Nat) :
+    (buildQuditOp d [(one, one, 1)]).f a b = if a = one ∧ b = one then 1 else 0 := by
+  simp [buildQuditOp, Mat.add, Mat.smul, Mat.proj, Mat.zero]
+
+theorem ident_f (d a b : Nat) : (Mat.ident d).f a b = if a = b then 1 else 0 := rfl
+
+theorem prodEntry_ident (d : Nat) : ∀ (n : Nat) (σ τ : List Nat), σ.length = n → τ.length = n →
+    prodEntry (List.replicate n (Mat.ident d)) σ τ = if σ = τ then 1 else 0 := by
+  intro n
+  induction n with
+  | zero =>
+    intro σ τ hs ht
+    have : σ = [] := by simpa using hs
+    subst this
+    have : τ = [] := by simpa using ht
+    subst this
+    simp [prodEntry]
+  | succ n ih =>
+    intro σ τ hs ht
+    cases σ with
+    | nil => simp at hs
+    | cons a σ =>
+      cases τ with
+      | nil => simp at ht
+      | cons b τ =>
+        simp only [List.replicate_succ, prodEntry, ident_f]
+        rw [ih σ τ (by simpa using hs) (by simpa using ht)]
+        by_cases hab : a = b <;> by_cases hst : σ = τ <;> simp [hab, hst]
+
+set_option linter.unnecessarySeqFocus false in
+/-- entries of the tensor product `1 ⊗ … ⊗ |one⟩⟨one|_i ⊗ … ⊗ 1` -/
+theorem prodEntry_number (d one : Nat) : ∀ (n i : Nat) (σ τ : List Nat), i < n → σ.length = n → τ.length = n →
+    prodEntry ((List.replicate n (Mat.ident d)).set i (buildQuditOp d [(one, one, 1)])) σ τ
+      = if σ = τ ∧ σ.getD i d = one then 1 else 0 := by
+  intro n
+  induction n with
+  | zero => intro i σ τ hi; omega
+  | succ n ih =>
+    intro i σ τ hi hs ht
+    cases σ with
+    | nil => simp at hs
+    | cons a σ =>
+      cases τ with
+      | nil => simp at ht
+      | cons b τ =>
+        have hs' : σ.length = n := by simpa using hs
+        have ht' : τ.length = n := by simpa using ht
+        cases i with
+        | zero =>
+          simp only [List.replicate_succ, List.set_cons_zero, prodEntry, numberQudit_entry,
+            prodEntry_ident d n σ τ hs' ht', List.getD_cons_zero]
+          by_cases ha : a = one <;> by_cases hb : b = one <;> by_cases hst : σ = τ <;>
+            simp_all <;> omega
+        | succ k =>
+          simp only [List.replicate_succ, List.set_cons_succ, prodEntry, ident_f, List.getD_cons_succ]
+          rw [ih k σ τ (by omega) hs' ht']
+          by_cases hab : a = b <;> by_cases hst : σ = τ <;> simp [hab, hst]
+
+theorem slotOps_number (d n one i : Nat) (hi : i < n) :
+    slotOps d n [([(one, one, 1)], [i])]
+      = (List.replicate n (Mat.ident d)).set i (buildQuditOp d [(one, one, 1)]) := by
+  simp [slotOps, hi]
+
+/-- the number operator `n_i` is the diagonal projector on `σᵢ = one` -/
+theorem numberOp_entry (d n one i : Nat) (hi : i < n) (σ τ : List Nat)
+    (hs : σ.length = n) (ht : τ.length = n) (hds : Digits d σ) (hdt : Digits d τ) :
+    (numberOp d n one [i]).f (index d σ) (index d τ) = if σ = τ ∧ σ.getD i d = one then 1 else 0 := by
+  unfold numberOp
+  rw [fromRepr_entry d n _ σ τ hs ht hds hdt]
+  simp only [fromReprEntry, slotOps_number d n one i hi, prodEntry_number d one n i σ τ hi hs ht]
+  simp
+
+theorem numberOp_dim (d n one i : Nat) :
+    (numberOp d n one [i]).r = d ^ n ∧ (numberOp d n one [i]).c = d ^ n := by
+  obtain ⟨h1, h2⟩ := slotOps_dim d n [([(one, one, 1)], [i])]
+  obtain ⟨h3, h4⟩ := kronList_dim d _ h1
+  simp only [numberOp, fromRepr, Mat.add, Mat.smul, h3, h4, h2]
+  exact ⟨trivial, trivial⟩
+
+theorem allStates_nodup (d n : Nat) : (allStates d n).Nodup := by
+  have h : ((allStates d n).map (index d)).Nodup := by
+    rw [allStates_index]; exact List.nodup_range
+  exact List.Nodup.of_map _ h
+
+theorem sum_ite_eq_of_nodup {α} [DecidableEq α] (L : List α) (hL : L.Nodup) (σ : α) (hσ : σ ∈ L) (h : α → CQ) :
+    (L.map fun τ => if σ = τ then h τ else 0).sum = h σ := by
+  induction L with
+  | nil => simp at hσ
+  | cons x L ih =>
+    obtain ⟨hx, hL'⟩ := List.nodup_cons.mp hL
+    simp only [List.map_cons, List.sum_cons]
+    by_cases e : σ = x
+    · subst e
+      have : (L.map fun τ => if σ = τ then h τ else 0) = L.map fun _ => (0 : CQ) := by
+        apply List.map_congr_left
+        intro τ hτ
+        have : σ ≠ τ := fun e => hx (e ▸ hτ)
+        simp [this]
+      rw [this]; simp
+    · have hσ' : σ ∈ L := by
+        rcases List.mem_cons.mp hσ with h1 | h1
+        · exact absurd h1 e
+        · exact h1
+      simp [e, ih hL' hσ']
+
+theorem sum_map_ite_filter {α} (L : List α) (p : α → Bool) (g : α → CQ) :
+    (L.map fun σ => if p σ then g σ else 0).sum = ((L.filter p).map g).sum := by
+  induction L with
+  | nil => simp
+  | cons x L ih => by_cases h : p x <;> simp [h, ih]
+
+set_option linter.unusedSimpArgs false in
+/-- **Occupation is its definition**: `Tr[ρ n_i] = Σ_σ ρ_σσ [σᵢ = one]`, for every density
+matrix (indeed every matrix) `ρ`, every dimension and every number of qudits. -/
+theorem occupation_eq (d n one i : Nat) (hi : i < n) (rho : Mat) :
+    expectDM (numberOp d n one [i]) rho =
+      (((allStates d n).filter fun σ => σ.getD i d == one).map fun σ =>
+        rho.f (index d σ) (index d σ)).sum := by
+  obtain ⟨hr, hc⟩ := numberOp_dim d n one i
+  simp only [expectDM, Mat.trace, Mat.mul, hr, hc]
+  rw [sumTo_states]
+  have inner : ∀ σ ∈ allStates d n,
+      (sumTo (d ^ n) fun k => (numberOp d n one [i]).f (index d σ) k * rho.f k (index d σ))
+        = if σ.getD i d == one then rho.f (index d σ) (index d σ) else 0 := by
+    intro σ hσ
+    rw [sumTo_states]
+    have hs := allStates_length d n σ hσ
+    have hds := allStates_digits d n σ hσ
+    have e : ((allStates d n).map fun τ =>
+          (numberOp d n one [i]).f (index d σ) (index d τ) * rho.f (index d τ) (index d σ))
+        = (allStates d n).map fun τ =>
+          if σ = τ then (if σ.getD i d == one then rho.f (index d τ) (index d σ) else 0) else 0 := by
+      apply List.map_congr_left
+      intro τ hτ
+      rw [numberOp_entry d n one i hi σ τ hs (allStates_length d n τ hτ) hds (allStates_digits d n τ hτ)]
+      by_cases h1 : σ = τ <;> by_cases h2 : σ.getD i d = one <;> simp [h1, h2]
+    rw [e, sum_ite_eq_of_nodup _ (allStates_nodup d n) σ hσ]
+  rw [← sum_map_ite_filter]
+  congr 1
+  apply List.map_congr_left
+  intro σ hσ
+  exact inner σ hσ
+
+theorem re_sum {α} (L : List α) (g : α → CQ) : ((L.map g).sum).re = (L.map fun x => (g x).re).sum := by
+  induction L with
+  | nil => simp
+  | cons x L ih => simp [ih]
+
+theorem lookup_probsDM (rho : Mat) (k : Nat) (hk : k < rho.r) : lookup (probsDM rho) k = (rho.f k k).re := by
+  unfold lookup probsDM
+  simp [List.getD_eq_getElem?_getD, hk]
+
+/-- `⟨n_i⟩ = Σ_σ p_σ [σᵢ = one]` with `p` the diagonal of the state. -/
+theorem occupation_re (d n one i : Nat) (hi : i < n) (rho : Mat) (hr : rho.r = d ^ n) :
+    (expectDM (numberOp d n one [i]) rho).re = occupationSpec d n one (probsDM rho) i := by
+  rw [occupation_eq d n one i hi rho, re_sum]
+  unfold occupationSpec
+  congr 1
+  apply List.map_congr_left
+  intro σ hσ
+  have hσ' := (List.mem_filter.mp hσ).1
+  have hlt := index_lt d σ (allStates_digits d n σ hσ')
+  rw [allStates_length d n σ hσ'] at hlt
+  rw [lookup_probsDM rho _ (by rw [hr]; exact hlt)]
 
 end Pulser.Measure
